@@ -1,24 +1,36 @@
 """C06 Builder simplifications never change what a pipeline means."""
-from vlib.core import Report
-from pyvc.check import run_proofs
+from vlib.core import Report, run_bounded
+from pyvc.check import run_proofs, attach_bounded_witness
 
-MODS = ["contracts.c06_merge"]
-KEYS = ["try_to_merge_ops"]
-
-
+MODS = ["contracts.c06_merge", "contracts.c06_builders"]
 REPLAYS = {"try_to_merge_ops": "contracts.c06_native:replay_merge"}
 
 
 def run(tier, seed):
+    from contracts.c06_builders import KEYS as BKEYS
+    keys = ["try_to_merge_ops"] + [k for k in BKEYS if not k.endswith(".replace_leaves")]
     rep = Report(property_id="C06", level="proof")
-    rep.rule = "obligations = named ensures clauses / callee preconditions / loop invariants of the targets, one VC per control path"
-    run_proofs(rep, MODS, KEYS, REPLAYS)
+    rep.rule = ("obligations = named ensures clauses / callee preconditions of the targets, one VC per control path: (1) try_to_merge_ops: the merged extend equals the two "
+                "extends applied in turn, for all assignment maps and all tables; (3) every builder forwards ALL its arguments through an eliminated order_rows and otherwise "
+                "builds its node from all of them; (4) select_columns only accepts columns of the step it is applied to, also when it collapses onto an earlier select/drop; "
+                "(5) only an order_rows without limit is ever eliminated")
+    rep.assumptions += [
+        "ghost semantics of extend: simultaneous assignment; ev(e,T) depends only on cols(e) and the window columns (frame axiom); expr_rep.get_columns_used = union of cols",
+        "builders and constructors are abstracted at call sites as uninterpreted functions of all their arguments",
+        "extend_parsed_'s own gating (same partition/order/reverse/windowed-ness before merging) and the order-insensitivity of later operators (licence for dropping order_rows) are checked only boundedly (C07 / C18 runs)",
+    ]
+    run_proofs(rep, MODS, keys, REPLAYS)
     return rep
 
 
 def replay(payload):
     import importlib
-    m, f = REPLAYS[payload.get("target")].split(":")
+    tgt = payload.get("target")
+    if tgt not in REPLAYS or not payload.get("case"):
+        print("no concrete input in this replay file; obligation:", payload.get("obligation"))
+        print(payload.get("solver_output"))
+        return 1
+    m, f = REPLAYS[tgt].split(":")
     out = getattr(importlib.import_module(m), f)(payload["case"])
     print(out)
     return 1 if out.get("fails") else 0
